@@ -189,13 +189,16 @@ def run(ctx):
     for i in range(n):
         p = L.gen_program(rng, big=(i % 40 == 39))
         progs.append(p)
-    wit = ctx.driver("C27", ["witnesses"])
-    witnesses = []
+    wit = ctx.driver("C27", ["witnesses", "legacy"])
+    witnesses, legacy = [], []
     if wit is not None:
         for line in wit[0].split(" || "):
             if line.strip():
                 witnesses.append(parse_witness(line.strip()))
-    allp = [w[1] for w in witnesses] + REGRESSIONS + progs
+        for line in wit[1].split(" || "):  # former witnesses of repaired defects: ordinary programs now
+            if line.strip():
+                legacy.append(parse_witness(line.strip())[1])
+    allp = [w[1] for w in witnesses] + REGRESSIONS + legacy + progs
     reqs = [request_line(p, dflt, maxreq, tz) for p in allp]
     replies = ctx.driver("C27", reqs)
     loop = L.Loop()
@@ -229,8 +232,8 @@ META = {
               "on a file not opened in append mode, if no defect trigger fires along the run then each call returns "
               "what the local file returns and the server file equals the local file (exactly once closed, up to the "
               "unflushed write buffer before) — by a simulation relation (step_refines, rel_init for freshly opened "
-              "files, closed_contents_equal); plus one machine-checked *_witness theorem per tag (12 tags + "
-              "returns_none) exhibiting a concrete diverging program. Every run: byte-exact correspondence of the "
+              "files, closed_contents_equal); plus one machine-checked *_witness theorem per remaining tag "
+              "(and legacy_*_witness theorems: the former witnesses of the three repaired defects now refine the spec). Every run: byte-exact correspondence of the "
               "model with a real SFTPClient/SFTPFile against a real SFTPServer over a loopback (return values, "
               "exception kinds, final file bytes, _pos/_realpos/_rbuffer/_wbuffer; modes r r+ w w+ a a+ x wx w+x, "
               "bufsize -1..65536, pipelined or not, MAX_REQUEST_SIZE patched down to force request splitting), "
@@ -246,7 +249,9 @@ META = {
              "reference = consensus of unbuffered FileIO and default-buffered file objects; programs where those two "
              "disagree (a+ after read/seek/write, append after truncate) are outside the spec. Exceptions compare as "
              "'raises' (IOError vs ValueError/OSError classes differ by design). Trusted: Lean kernel + 3 axioms, "
-             "harness/generators, tests/_stub_sftp.py, CPython file objects. One defect fixed (fdf7955, server "
-             "SFTPHandle append-mode offset cache); 13 listed as known findings by tag."),
+             "harness/generators, tests/_stub_sftp.py, CPython file objects. Fixed in /repo: fdf7955 (server "
+             "SFTPHandle append-mode offset cache), e29ecb5 (write after read-ahead), c5093b5 (read with unflushed "
+             "write buffer), 8eeb0a7 (truncate ignores buffers); truncate_zeroes_file fixed by 280deaf (C31). Remaining "
+             "known findings are API-convention differences, listed by tag."),
     "technique": "Lean 4 proof (simulation/refinement to a local-file spec) + differential correspondence + spec validation",
 }
